@@ -4,7 +4,9 @@ Part A  `sequences`  operation sequences (deviation-bounded around the default
         history construct -> sweep -> postprocess of `_run_dassh`).  Inputs
         {plain, FuelModel, PinModel with user pin materials, hot-spot requests,
         AssemblyTables + dump all, three-assembly core with two types}, each
-        with two time points, x EVERY sequence of exactly depth 3 (quick) / 4
+        with two time points (fuel: power_scaling_factor 0.8 without
+        total_power; hotspot: OUTLET_TEMP, core2: one DELTA_TEMP assignment, so
+        the flow rate follows the power of the time point), x EVERY sequence of exactly depth 3 (quick) / 4
         (thorough) over the alphabet
             c0     Reactor(inp, timestep=0, path=<own dir>, write_output=True)
             c1     the same for time point 1
@@ -30,7 +32,8 @@ Part A  `sequences`  operation sequences (deviation-bounded around the default
             reference after its sweep; after `post` the object graph and the
             files of the working directory are identical.
 Part B  `schedules`  real `dassh.__main__.run_dassh` on inputs with 1..4 time
-        points: serial loop; `multiprocessing.Pool` replaced by a deterministic
+        points (fuel: time points 2 and 3 name the SAME user power files as 0
+        and 1): serial loop; `multiprocessing.Pool` replaced by a deterministic
         in-process pool that runs the submitted tasks in EVERY order
         (1 + 2 + 6 + 24; the tasks share the parsed input object and the
         interpreter); the real `Pool` with n_cpu = 1..4 through
@@ -114,8 +117,22 @@ def _power(t, scale=1.0, seed=0):
             'cool': 'uniform', 'axial': ax, 'seed': seed + t, 'order': 3}
 
 
+def power_index(family, t):
+    """which power distribution time point t of a family uses.  The `fuel`
+    family has only two distributions: its time points 2 and 3 name the SAME
+    user power files as 0 and 1 (user_power = power_0.csv, power_1.csv,
+    power_0.csv, power_1.csv), so one file is read by several time points."""
+    return t % 2 if family == 'fuel' else t
+
+
 def scenario(family, ntp, first_tp=0, parallel=None, n_cpu=None):
-    """input of a family with the time points first_tp .. first_tp + ntp - 1"""
+    """input of a family with the time points first_tp .. first_tp + ntp - 1.
+    Besides the model options the families differ in
+      fuel     power_scaling_factor = 0.8 (no total_power normalisation), power
+               files shared between time points (see power_index);
+      hotspot  boundary condition OUTLET_TEMP (flow rate derived from the power
+               of the time point);
+      core2    one assembly with DELTA_TEMP, two with FLOWRATE."""
     setup = {'axial_mesh_size': 0.01}
     kw = {}
     mats = None
@@ -142,7 +159,12 @@ def scenario(family, ntp, first_tp=0, parallel=None, n_cpu=None):
         setup['Dump'] = {'average': True, 'maximum': True, 'gap': True}
     d = S.design(2, pd=1.2, hd=30, oftf=0.03, **kw)
     tps = list(range(first_tp, first_tp + ntp))
+    idx = [power_index(family, t) for t in tps]
+    dist = sorted(set(idx))            # distinct power distributions = files
     scn = S.single(d, 0.15, length=0.1, power=None, setup=setup)
+    if family == 'hotspot':
+        # 2.9 kW * (1 + 0.25 t) over 26.85 K: 0.086 kg/s at time point 0
+        scn['assign'] = [['A', 1, 1, {'outlet_temp': 650.0}]]
     if family == 'core2':
         refl = S.design(2, pd=1.1, hd=20, oftf=0.03, clearance='loose',
                         lowfi={'model': 'simple', 'convection_factor': 0.8})
@@ -151,15 +173,19 @@ def scenario(family, ntp, first_tp=0, parallel=None, n_cpu=None):
         # the flow (and power) of the single-assembly families keeps 10 steps
         scn['assign'] = [['A', 1, 1, {'flowrate': 1.5}],
                          ['R', 2, 1, {'flowrate': 0.5}],
-                         ['A', 2, 2, {'flowrate': 1.2}]]
+                         ['A', 2, 2, {'delta_temp': 15.0}]]   # 1.2 kg/s at tp 0
         scn['core']['gap_model'] = 'flow'
         scn['core']['bypass_fraction'] = 0.3
-        asm = {'1': [_power(t, 10.0) for t in tps],
-               '2': [_power(t, 1.0, 5) for t in tps],
-               '3': [_power(t, 8.0, 9) for t in tps]}
+        asm = {'1': [_power(t, 10.0) for t in dist],
+               '2': [_power(t, 1.0, 5) for t in dist],
+               '3': [_power(t, 8.0, 9) for t in dist]}
     else:
-        asm = {'1': [_power(t) for t in tps]}
-    scn['power'] = {'asm': asm, 'timepoints': ntp}
+        asm = {'1': [_power(t) for t in dist]}
+    scn['power'] = {'asm': asm, 'timepoints': len(dist)}
+    if family == 'fuel':
+        scn['power']['scaling'] = 0.8
+    # one entry per time point; several time points may name one file
+    scn['user_power'] = ['power_%d.csv' % dist.index(i) for i in idx]
     if mats:
         scn['materials'] = mats
     if parallel is not None:
@@ -167,6 +193,22 @@ def scenario(family, ntp, first_tp=0, parallel=None, n_cpu=None):
     if n_cpu is not None:
         scn['setup']['n_cpu'] = n_cpu
     return scn
+
+
+_USER_POWER = re.compile(r'^(\s*user_power\s*=).*$', re.M)
+
+
+def build(scn):
+    """S.Built + the user_power line of the input rewritten to scn['user_power']
+    (the builder writes one CSV per distinct distribution)"""
+    b = S.Built(scn)
+    names = scn.get('user_power')
+    if names:
+        b.text, n = _USER_POWER.subn(lambda m: m.group(1) + ' ' + ', '.join(names), b.text)
+        assert n == 1, 'harness: user_power line not found'
+        with open(b.path, 'w') as f:
+            f.write(b.text)
+    return b
 
 
 # ======================================================================
@@ -531,7 +573,7 @@ def _freeze_input(inp, fz):
 def _reference_child(family, tp):
     """time point tp of a family built, swept and post-processed from a freshly
     parsed input in a fresh interpreter"""
-    with S.Built(scenario(family, 2)) as b:
+    with build(scenario(family, 2)) as b:
         fz = Freezer(b.dir, reactor_rules=True)
         inp = b.inp()
         wd = os.path.join(b.dir, 'w_ref')
@@ -579,7 +621,7 @@ def _sequence_child(c, refs):
             kind, sc, '%s input, after operation %d of %s: %s'
             % (c['family'], i + 1, ' > '.join(ops), what), obs, exp, None, site))
 
-    with S.Built(scenario(c['family'], 2)) as b:
+    with build(scenario(c['family'], 2)) as b:
         fz = Freezer(b.dir)
         fzr = Freezer(b.dir, reactor_rules=True)
         inp = b.inp()
@@ -811,7 +853,7 @@ def _input_files(bdir):
 def _single_child(family, tp):
     """time point tp ONE AT A TIME: single-time-point input, fresh interpreter"""
     import dassh.__main__ as M
-    with S.Built(scenario(family, 1, first_tp=tp)) as b:
+    with build(scenario(family, 1, first_tp=tp)) as b:
         inputs = _input_files(b.dir)
         inp = b.inp()
         M.run_dassh(inp, dict(RX_ARGS))
@@ -826,7 +868,7 @@ def _schedule_child(c):
     scn = scenario(c['family'], c['ntp'],
                    parallel=True if mode == 'inproc' else None)
     out = {'done': [], 'fail': None, 'pool_used': False}
-    with S.Built(scn) as b:
+    with build(scn) as b:
         inputs = _input_files(b.dir)
         inp = b.inp()
         orig = M._run_dassh
@@ -898,7 +940,7 @@ def _process_run(c):
     scn = scenario(c['family'], c['ntp'], parallel=True if par else None,
                    n_cpu=c.get('workers') if par else None)
     out = {'done': None, 'fail': None}
-    with S.Built(scn) as b:
+    with build(scn) as b:
         inputs = _input_files(b.dir)
         out['fail'] = _spawn(b.dir)
         out['dirs'], out['rest'] = _tp_dirs(b.dir, c['ntp'], inputs)
